@@ -21,7 +21,7 @@ type C15Case struct {
 }
 
 var c15Kinds = []string{"absent", "present-valid", "present-garbage", "unwritable-EACCES", "unwritable-EROFS",
-	"dir-at-output", "log-unwritable", "log-is-dir", "mid-write", "stat-src-error", "open-EMFILE", "commit-error"}
+	"dir-at-output", "log-unwritable", "log-is-dir", "mid-write", "stat-src-error", "open-EMFILE", "commit-error", "output-links-to-setup"}
 
 var outVariants = []string{"same-dir", "subdir", "other-pkg", "outside", "parent-missing", "abs-same-dir", "dotdot-outside"}
 
@@ -115,6 +115,13 @@ func genC15(cfg Config, ws *WorldSet, i, perWorld int) C15Case {
 			plan.Faults = append(plan.Faults, sim.Fault{Op: "OUTPUT-OPEN", Path: iv.OutPath, Kind: "open_err", Errno: strings.SplitN(base, "-", 2)[1]})
 		case "dir-at-output":
 			steps = append(steps, Step{Op: "mkdir", Path: iv.OutPath})
+		case "output-links-to-setup":
+			// the output path is a symbolic or hard link to the setup file itself: whatever
+			// the run does, "the setup file is never modified" (other link targets are not
+			// generated: writing through a link to an unrelated file is the path the user gave)
+			if filepath.Dir(iv.OutPath) == filepath.Dir(setup) {
+				steps = append(steps, Step{Op: sim.Pick(r, []string{"symlink", "hardlink"}), Path: iv.OutPath, Data: []byte(setup)})
+			}
 		case "log-unwritable":
 			if r.Bool() {
 				present()
